@@ -647,9 +647,15 @@ func chainLoopRule(c *Ctx, rule string) {
 		return ok && namedOf(p.Elem()) == exprT && exprT != nil
 	}
 	n := 0
+	inParse := map[*ssa.Function]bool{}
+	if c.a.ParseQuery != nil {
+		for _, f := range c.scope(c.a.ParseQuery, 8) {
+			inParse[f] = true
+		}
+	}
 	for _, fn := range c.w.ModFuncs {
-		if c.w.pkgPathOf(fn) != pkgParser || fn.Blocks == nil {
-			continue
+		if c.w.pkgPathOf(fn) != pkgParser || fn.Blocks == nil || !inParse[fn] {
+			continue // only what ParseQuery reaches parses text (a tree rewriter also appends expressions in a loop)
 		}
 		for li, l := range loopsOf(fn) {
 			// an operand loop: appends an expression to a list of expressions inside the loop
@@ -711,18 +717,73 @@ func chainLoopRule(c *Ctx, rule string) {
 					}
 				}
 			}
+			// values of the kind type that are fixed before the loop (the operator the chain started with, however it
+			// was obtained) are not "the current token": the test is evaluated for every value they may have
+			var invariants []ssa.Value
+			{
+				seenV := map[ssa.Value]bool{}
+				var collect func(v ssa.Value, depth int)
+				collect = func(v ssa.Value, depth int) {
+					if v == nil || seenV[v] || depth > 6 {
+						return
+					}
+					seenV[v] = true
+					if _, isConst := v.(*ssa.Const); isConst {
+						return
+					}
+					if types.Identical(v.Type(), ps.KindT) {
+						outside := false
+						switch x := v.(type) {
+						case *ssa.Parameter, *ssa.FreeVar:
+							outside = true
+						case ssa.Instruction:
+							outside = !l.blocks[x.Block()]
+						}
+						if outside {
+							invariants = append(invariants, v)
+							return
+						}
+					}
+					if ins, ok := v.(ssa.Instruction); ok && l.blocks[ins.Block()] {
+						for _, op := range ins.Operands(nil) {
+							if *op != nil {
+								collect(*op, depth+1)
+							}
+						}
+					}
+				}
+				collect(iff.Cond, 0)
+			}
 			cnt, readable := 0, true
-			for _, kv := range kinds {
-				ke := &kindEval{c: c, kindT: ps.KindT, tokT: ps.TokenT, rep: kv, bind: map[ssa.Value]int64{}}
-				r, ok := ke.boolVal(iff.Cond)
-				if !ok {
-					readable = false
+			fixed := []int64{0}
+			if len(invariants) > 0 {
+				fixed = kinds
+			}
+			worst := 0
+			for _, k0 := range fixed {
+				cnt = 0
+				for _, kv := range kinds {
+					ke := &kindEval{c: c, kindT: ps.KindT, tokT: ps.TokenT, rep: kv, bind: map[ssa.Value]int64{}}
+					for _, iv := range invariants {
+						ke.bind[iv] = k0
+					}
+					r, ok := ke.boolVal(iff.Cond)
+					if !ok {
+						readable = false
+						break
+					}
+					if r == contOnTrue {
+						cnt++
+					}
+				}
+				if !readable {
 					break
 				}
-				if r == contOnTrue {
-					cnt++
+				if cnt > worst {
+					worst = cnt
 				}
 			}
+			cnt = worst
 			switch {
 			case !readable:
 				c.r.undecided(rule, key, "the continuation test of the loop that collects the operands of an AND/OR node is not a test of the current token's kind that the rule can evaluate", c.w.ipos(iff))
